@@ -161,7 +161,7 @@ def run(tier: str, seed: int) -> int:
             which = range(0, 1)
         js = shard_jobs("MC_GeoFrame", dict(constants=dict(Kind=kind, Elems="<- " + cat, MaxOps=4, N=n, MaxPS=maxps, KeyStride=stride,
                                                            AllPerms=not quick),
-                                            invariants=["CxExact"]), ns, which=which, dump=True, continue_=True, timeout=3000)
+                                            invariants=["CxExact"]), ns, which=which, dump=True, continue_=True, timeout=3000 if quick else 12000)
         plan.append((kind, cat, len(js)))
         jobs += js
     results = run_jobs(jobs)
